@@ -14,6 +14,7 @@ import (
 	"verifharness/gen"
 	"verifharness/world"
 
+	ocspchk "github.com/gr33nbl00d/caddy-revocation-validator/ocsp"
 	"github.com/muesli/cache2go"
 	"golang.org/x/crypto/ocsp"
 	"pgregory.net/rapid"
@@ -25,10 +26,10 @@ type Case struct {
 	PeriodPct  int    `json:"period_pct"`  // read period in percent of D (20, 50, 200); for D=0 a fixed 20 ms
 	NextUpdate string `json:"next_update"` // "" | past
 	Reads      int    `json:"reads"`
-	FlipAfter  int    `json:"flip_after"`  // the responder flips good->revoked after this many reads
-	Twin       string `json:"twin"`        // issuer of the second certificate differs in: cn | dc | email | order | none
-	Instances  int    `json:"instances"`   // 1..2 checker instances used alternately
-	FailFirst  bool   `json:"fail_first"`  // the very first query fails (HTTP 500), must not be cached
+	FlipAfter  int    `json:"flip_after"` // the responder flips good->revoked after this many reads
+	Twin       string `json:"twin"`       // issuer of the second certificate differs in: cn | dc | email | order | none
+	Instances  int    `json:"instances"`  // 1..2 checker instances used alternately
+	FailFirst  bool   `json:"fail_first"` // the very first query fails (HTTP 500), must not be cached
 	CAKey      string `json:"ca_key"`
 	// Concurrent: before the timed pattern, two different certificates are checked at the same time on one
 	// instance while the responder of the first answers slowly
@@ -203,17 +204,30 @@ func whiteBoxLifetime(c Case, base string, o *world.Origin, chk world.Checker, x
 	if v := world.Ask(chk, [][]*x509.Certificate{{leaf.Cert, ca.Cert}}); v.Kind != "ok" {
 		return fmt.Errorf("white-box probe: authentic good answer got %v", v)
 	}
-	found := false
+	found, known := false, false
 	var life time.Duration
 	cache2go.Cache("ocsp_client").Foreach(func(key interface{}, item *cache2go.CacheItem) {
 		if !item.CreatedOn().Before(before) && strings.Contains(fmt.Sprint(key), leaf.Cert.SerialNumber.String()) {
 			found = true
-			life = item.LifeSpan()
+			// the lifetime of the entry: the cache library's own (sliding) lifespan if it has one, and the absolute
+			// expiry the checker stores with the response (verif export); the larger indication counts
+			if l := item.LifeSpan(); l > 0 {
+				known, life = true, l
+			}
+			if exp, ok := ocspchk.VerifCachedResponseExpiry(item.Data()); ok {
+				known = true
+				if l := exp.Sub(item.CreatedOn()); l > life {
+					life = l
+				}
+			}
 		}
 	})
 	if !found {
 		x.Class("white-box-item-not-found")
 		return nil
+	}
+	if !known {
+		return fmt.Errorf("white-box probe: the cache entry of an authentic answer with nextUpdate in one hour carries neither a lifespan nor an expiry: it would be served for ever")
 	}
 	x.Class("white-box-lifetime-checked")
 	limit := time.Until(next) + 15*time.Minute + time.Since(before) + 5*time.Second
@@ -275,10 +289,10 @@ func concurrentCerts(c Case, base string, o *world.Origin, x *ev.Ctx) error {
 }
 
 var spec = ev.Spec[Case]{
-	ID:  "C14",
-	Gen: genCase,
-	Run: runCase,
-	Rule: "rapid draws an access pattern: default cache duration D in {0, 300, 400, 600 ms}, read period in {D/5, D/2, 2D}, 6..14 reads alternating over 1..2 checker instances, responder flip good->revoked after 1..3 reads, nextUpdate in {absent, already past}, optionally a first query that fails, and a twin certificate with identical subject and serial from another issuer whose name differs in CN / a DC component / an added emailAddress / RDN order. Oracles: (a) a read that STARTS more than D + 60 ms after the answer now cached was obtained must ask the responder again (upper bound only: slowness adds time and can never cause a failure); a read that asked the responder returns the responder's current status; (b) the twin triggers a request to its own responder and gets its own verdict; (c) with D = 0 and no usable nextUpdate every read asks the responder; (d) after a failed query the next read asks again; (e) white-box: after an authentic answer with nextUpdate = now + 1 h and a thisUpdate 0 / 1 / 6 / 48 h old, the lifetime stored with the cache item (public LifeSpan of the cache library's item) is at most nextUpdate - now + 15 min; (f) in half of the cases two different certificates are first checked concurrently on one instance while the first responder is held, and each must afterwards get its own status. Every case is non-trivial; distinct by the full pattern.",
+	ID:   "C14",
+	Gen:  genCase,
+	Run:  runCase,
+	Rule: "rapid draws an access pattern: default cache duration D in {0, 300, 400, 600 ms}, read period in {D/5, D/2, 2D}, 6..14 reads alternating over 1..2 checker instances, responder flip good->revoked after 1..3 reads, nextUpdate in {absent, already past}, optionally a first query that fails, and a twin certificate with identical subject and serial from another issuer whose name differs in CN / a DC component / an added emailAddress / RDN order. Oracles: (a) a read that STARTS more than D + 60 ms after the answer now cached was obtained must ask the responder again (upper bound only: slowness adds time and can never cause a failure); a read that asked the responder returns the responder's current status; (b) the twin triggers a request to its own responder and gets its own verdict; (c) with D = 0 and no usable nextUpdate every read asks the responder; (d) after a failed query the next read asks again; (e) white-box: after an authentic answer with nextUpdate = now + 1 h and a thisUpdate 0 / 1 / 6 / 48 h old, the lifetime stored with the cache entry (the cache library's LifeSpan and / or the absolute expiry kept with the response, read through a verif export) is at most nextUpdate - now + 15 min; (f) in half of the cases two different certificates are first checked concurrently on one instance while the first responder is held, and each must afterwards get its own status. Every case is non-trivial; distinct by the full pattern.",
 	Assumptions: []string{
 		"lifetimes of nextUpdate + 15 min cannot be waited out; the default-duration lifetime is exercised in time, the nextUpdate lifetime is read white-box from the cache library's item (skipped if the item cannot be found)",
 		"wall-clock: only lower bounds on elapsed time are used, so a slow machine cannot produce a violation",
